@@ -689,7 +689,12 @@ func (self *ReplicationClient) InitSync() error {
 		self.currentAofId[8], self.currentAofId[9], self.currentAofId[10], self.currentAofId[11], self.currentAofId[12], self.currentAofId[13], self.currentAofId[14], self.currentAofId[15] = aofId[0], aofId[1], aofId[2], aofId[3], aofId[4], aofId[5], aofId[6], aofId[7],
 		aofId[8], aofId[9], aofId[10], aofId[11], aofId[12], aofId[13], aofId[14], aofId[15]
 	self.manager.slock.logger.Infof("Replication client start recv files util aofId %s", FormatAofId(self.currentAofId))
-	return self.recvFiles()
+	err = self.recvFiles()
+	if err != nil && !self.recvedFiles {
+		self.currentAofId = [16]byte{}
+		self.aofLock = nil
+	}
+	return err
 }
 
 func (self *ReplicationClient) sendStarted() error {
